@@ -83,6 +83,8 @@ def main():
     for p in cov['subchecks']:
         if p['first_point'] is not None:
             samples.append({'subcheck': p['name'], 'first': p['first_point'], 'last': p['last_point']})
+        for h in p.get('sample_histories', [])[:3]:
+            samples.append({'subcheck': p['name'], 'explored_history': h})
     cov['samples'] = samples
     cov['rule'] = getattr(mod, 'RULE', 'complete enumeration of the finite spaces named per subcheck (bound field); '
                           'distinct_nontrivial = number of distinct observed outcomes (hash of every value compared by an oracle)')
